@@ -4,6 +4,7 @@
 From Coq Require Import ZArith List.
 From Verif Require Import Lib.Params Spec.Edwards Model.Outcome Model.BabyJub Model.Eddsa
   Proofs.EddsaProofs.
+From Verif Require Gen.BigIntRoutines Proofs.BigIntEqVerify.
 Import ListNotations.
 Local Open Scope Z_scope.
 
@@ -35,7 +36,19 @@ Proof. exact altered_S_rejected. Qed.
 (* Rejection of EVERY bit-flip of message / R8 / key is not a logical consequence
    of the equation (it needs collision-resistance of H); those fault sequences
    are enumerated against this iff by the correspondence (DESIGN.md 6.C03). *)
+(* TRANSLATOR TIE: tools/bigintgen regenerates value-level Gallina from the Go source of these
+   functions at every run (Gen/BigIntRoutines.v); it equals the hand-written model the theorems
+   above are about, for all arguments.  An edit of the Go function breaks this. *)
+Theorem C03_model_is_the_source : forall p5 m7,
+  (forall pk msg sig, BigIntRoutines.babyjub_PublicKey_VerifyPoseidon p5 pk msg sig = VerifyPoseidon p5 pk msg sig) /\
+  (forall pk msg sig, BigIntRoutines.babyjub_PublicKey_VerifyMimc7 m7 pk msg sig = VerifyMimc7 m7 pk msg sig).
+Proof.
+  intros p5 m7.
+  exact (conj (BigIntEqVerify.gen_babyjub_PublicKey_VerifyPoseidon_eq p5) (BigIntEqVerify.gen_babyjub_PublicKey_VerifyMimc7_eq m7)).
+Qed.
+
 Print Assumptions C03_verify_iff.
 Print Assumptions C03_never_panics.
 Print Assumptions C03_digest_error_rejected.
 Print Assumptions C03_altered_S_rejected.
+Print Assumptions C03_model_is_the_source.
